@@ -86,7 +86,15 @@ func genHistory(r *kit.Rng) []seqOp {
 
 // runHistory executes the history on the real code and returns the op line for the driver and what
 // the implementation showed, in the driver's format.
-func runHistory(ops []seqOp) (opLine string, impl string, hdrCells [][]hdrRow) {
+// codePanic, when non-empty, is the message of a panic raised INSIDE a call into vegeta.
+func runHistory(ops []seqOp) (opLine string, impl string, hdrCells [][]hdrRow, codePanic string) {
+	call := func(what string, f func()) bool {
+		if p, msg := kit.Recover(f); p {
+			codePanic = what + " panicked: " + msg
+			return false
+		}
+		return true
+	}
 	var m vegeta.Metrics
 	var rd tdReader
 	have := false
@@ -113,25 +121,37 @@ func runHistory(ops []seqOp) (opLine string, impl string, hdrCells [][]hdrRow) {
 		switch op.Kind {
 		case "add":
 			sb.WriteString(fmt.Sprintf(" 0 %d %d", op.Lat, op.TS))
-			m.Add(&vegeta.Result{Code: 200, Timestamp: time.Unix(0, op.TS), Latency: time.Duration(op.Lat)})
+			if !call("Metrics.Add", func() {
+				m.Add(&vegeta.Result{Code: 200, Timestamp: time.Unix(0, op.TS), Latency: time.Duration(op.Lat)})
+			}) {
+				return
+			}
 			L := m.Latencies
 			out.WriteString(fmt.Sprintf(" | a %d %d %d %d", m.Requests, int64(L.Total), int64(L.Min), int64(L.Max)))
 		case "close":
 			sb.WriteString(" 1")
 			noteOracle()
-			m.Close()
+			if !call("Metrics.Close", func() { m.Close() }) {
+				return
+			}
 			L := m.Latencies
 			out.WriteString(fmt.Sprintf(" | c %d %d %d %d %d %d %d %d", int64(L.Min), int64(L.P50), int64(L.P90), int64(L.P95), int64(L.P99), int64(L.Max), m.Requests, int64(m.Duration)))
 		case "quantile":
 			sb.WriteString(" 2 " + fbits(op.Q))
 			noteOracle()
-			d := m.Latencies.Quantile(op.Q)
+			var d time.Duration
+			if !call("Latencies.Quantile", func() { d = m.Latencies.Quantile(op.Q) }) {
+				return
+			}
 			out.WriteString(fmt.Sprintf(" | q %d", int64(d)))
 		default:
 			sb.WriteString(" 3")
 			noteOracle()
 			var hb bytes.Buffer
-			err := vegeta.NewHDRHistogramPlotReporter(&m).Report(&hb)
+			var err error
+			if !call("HDR report", func() { err = vegeta.NewHDRHistogramPlotReporter(&m).Report(&hb) }) {
+				return
+			}
 			rows, ok := parseHDR(hb.Bytes())
 			if err != nil || !ok {
 				out.WriteString(" | h unparsable")
@@ -145,7 +165,7 @@ func runHistory(ops []seqOp) (opLine string, impl string, hdrCells [][]hdrRow) {
 	for _, o := range oracles {
 		sb.WriteString(" " + o)
 	}
-	return "c11.seq 200 800 " + fbits(math.MaxFloat64) + " " + fbits(-math.MaxFloat64) + " " + sb.String(), out.String(), hdrCells
+	return "c11.seq 200 800 " + fbits(math.MaxFloat64) + " " + fbits(-math.MaxFloat64) + " " + sb.String(), out.String(), hdrCells, ""
 }
 
 // diffSeq compares the model's line with the implementation's; HDR rows are rendered from the model's
@@ -194,7 +214,14 @@ func seqStream(c *run.Ctx, r *kit.Rng, s *kit.Summary, count int) {
 		h := genHistory(r)
 		var o, im string
 		var cl [][]hdrRow
-		if p, msg := kit.Recover(func() { o, im, cl = runHistory(h) }); p {
+		var cp string
+		if p, msg := kit.Recover(func() { o, im, cl, cp = runHistory(h) }); p {
+			// not raised inside a call into vegeta: the harness's own reading failed — no verdict, a divergence
+			s.Count("harness:call-sequence bookkeeping failed")
+			s.Diverge("c11.seq", fmt.Sprint(h), "harness: "+msg, "")
+			continue
+		}
+		if cp != "" {
 			// inside the property's domain (non-negative latencies, nothing asked of an empty Metrics) a panic
 			// means nothing is reported at all; outside of it the model merely says "no panic"
 			inDomain, seenAdd := true, false
@@ -209,9 +236,9 @@ func seqStream(c *run.Ctx, r *kit.Rng, s *kit.Summary, count int) {
 				}
 			}
 			if inDomain {
-				s.Violate(kit.Violation{Kind: "metrics_panic", What: "a call sequence panicked: " + msg, Input: map[string]interface{}{"history": h}})
+				s.Violate(kit.Violation{Kind: "metrics_panic", What: "a call sequence: " + cp, Input: map[string]interface{}{"history": h}})
 			} else {
-				s.Diverge("c11.seq", fmt.Sprint(h), "panic: "+msg, "the model runs every call sequence to completion")
+				s.Diverge("c11.seq", fmt.Sprint(h), cp, "the model runs every call sequence to completion")
 			}
 			continue
 		}
